@@ -2774,3 +2774,13 @@ for _patch, _what in (("benign-gap-zip-consecutive", "gaps computed per annotato
                       ("benign-default-named-constant", "a default value given by a module-level constant")):
     for _p in _ALL:
         VARIANTS.append(dict(prop=_p, id=f"r13/{_patch}", kind="B", rule="", patch=_os.path.join(_HP, f"{_patch}.diff"), note=_what))
+for _p, _patch, _what in (
+        ("C13", "probe-unit-post-init", "Unit.__post_init__ strips the label: a hook that runs whenever a unit is made, on a class the analysed functions instantiate"),
+        ("C18", "probe-unit-post-init", ""), ("C19", "probe-unit-post-init", ""),
+        ("C12", "probe-alignment-descriptor", "a data descriptor bound at class level under the name of the field `unitary_alignments` (truncating what is stored)"),
+        ("C02", "probe-alignment-descriptor", ""), ("C17", "probe-alignment-descriptor", ""), ("C10", "probe-alignment-descriptor", ""),
+        ("C13", "probe-continuum-metaclass", "a metaclass whose __call__ hands back the previous empty continuum"),
+        ("C18", "probe-continuum-metaclass", "")):
+    VARIANTS.append(dict(prop=_p, id=f"r13/{_patch}", kind="M", rule="", expect_code=2, patch=_os.path.join(_HP, f"{_patch}.diff"), note=_what))
+VARIANTS.append(dict(prop="C13", id="r13/probe-unit-eq-false", kind="M", rule="R-C13-1", patch=_os.path.join(_HP, "probe-unit-eq-false.diff"),
+                     note="@dataclass(eq=False): units compare and hash by identity"))
